@@ -256,7 +256,12 @@ def auxiliary_data(serdes, state):
     ### for i in range(1, state["next_parse_offset"]-12):
     ###     read_uint_lit(state, 1)
     ## Begin not in spec
-    serdes.bytes("bytes", state["next_parse_offset"] - PARSE_INFO_HEADER_BYTES)
+    # For robustness against bad bitstreams, treat a next_parse_offset smaller
+    # than the parse info header as an empty block (a negative length reads
+    # nothing but cannot be serialised again)
+    serdes.bytes(
+        "bytes", max(0, state["next_parse_offset"] - PARSE_INFO_HEADER_BYTES)
+    )
     ## End not in spec
 
 
@@ -267,7 +272,12 @@ def padding(serdes, state):
     ### for i in range(1, state["next_parse_offset"]-12):
     ###     read_uint_lit(state, 1)
     ## Begin not in spec
-    serdes.bytes("bytes", state["next_parse_offset"] - PARSE_INFO_HEADER_BYTES)
+    # For robustness against bad bitstreams, treat a next_parse_offset smaller
+    # than the parse info header as an empty block (a negative length reads
+    # nothing but cannot be serialised again)
+    serdes.bytes(
+        "bytes", max(0, state["next_parse_offset"] - PARSE_INFO_HEADER_BYTES)
+    )
     ## End not in spec
 
 
